@@ -156,7 +156,7 @@ def ls_cases(tier, rng):
     quick = tier == 'quick'
     cases = []
     for maxiter in range(0, 4):
-        letters = LS_LETTERS if (maxiter <= 2 or not quick) else 'AJLN'
+        letters = LS_LETTERS if (maxiter <= 1 or not quick) else ('ATJHLN' if maxiter == 2 else 'AJLN')
         for (rho, c, alpha) in LS_OPTS:
             for gold in (False, True):
                 for phi0 in ((10.0, 0.0) if (maxiter <= 2 or not quick) else (10.0,)):
@@ -164,7 +164,7 @@ def ls_cases(tier, rng):
                         cases.append(mk_ls(maxiter, rho, c, alpha, gold,
                                            ls_concretize(w, phi0, rho, c, alpha) + [1000.0],
                                            'ag:maxiter=%d' % maxiter))
-    for _ in range(1500 if quick else 30000):
+    for _ in range(1000 if quick else 30000):
         maxiter = rng.choice([-1, 0, 1, 2, 3, 5, 8])
         rho = rng.choice([0.0, 0.5, 1.0, rng.random(), rng.random()])
         c = rng.choice([0.0, 0.1, 0.5, 1.0, rng.random()])
@@ -232,7 +232,7 @@ class C09(Spec):
                             cases.append(mk(cls, maxiter, atol, rtol, st, err, True, concretize(w, atol, rtol) + [1000.0],
                                             '%s:cs:maxiter=%d' % (cls, maxiter)))
         # random binary64 histories
-        for _ in range(3000 if quick else 100000):
+        for _ in range(2000 if quick else 100000):
             cls = rng.choice(NL + LIN)
             maxiter = rng.choice([-1, 0, 1, 1, 2, 2, 3, 4, 5, 6, 8])
             atol = rng.choice([0.0, 1e-10, 1e-6, 1.0, 10.0 ** rng.uniform(-12, 1)])
